@@ -106,7 +106,8 @@ class Cursor(Abstract):
         s = z3.Int(I.fresh_name("s"))
         I.assume(z3.And(self.wf(c2),
                         z3.If(t <= self.cur, c2 == self.cur,
-                              z3.And(c2 >= t, z3.ForAll([s], z3.Implies(z3.And(self.S(s), s >= t), s >= c2))))))
+                              z3.And(z3.Or(c2 >= t, c2 == INF),
+                                     z3.ForAll([s], z3.Implies(z3.And(self.S(s), s >= t), s >= c2))))))
         self.cur = c2
         return Opaque("skip_to()")
 
@@ -309,3 +310,35 @@ for _n, _f in [("mem", mem), ("score_at", score_at), ("pos", pos), ("position", 
                ("supports_quality", supports_quality), ("rem", rem), ("replaces", replaces)]:
     B.SPEC_FUNCS[_n] = SpecFn(_n, _f)
 B.SPEC_FUNCS["INF"] = INF
+
+
+class IdSet(Abstract):
+    """Abstract set of doc ids (filter / deleted set): membership only."""
+
+    def __init__(self, I, name="ids"):
+        self.F = z3.Function(I.fresh_name(name), IntS, BoolS)
+
+    def havoc(self, I):
+        pass
+
+    def contains(self, I, item):
+        return self.F(to_z3(item))
+
+    def g_has(self, I, s):
+        return self.F(to_z3(s))
+
+
+class Pred(Abstract):
+    """Abstract pure callable id -> bool (InverseMatcher.missing)."""
+
+    def __init__(self, I, name="pred"):
+        self.F = z3.Function(I.fresh_name(name), IntS, BoolS)
+
+    def havoc(self, I):
+        pass
+
+    def call(self, I, args, kwargs, node=None):
+        return self.F(to_z3(args[0]))
+
+    def g_holds(self, I, s):
+        return self.F(to_z3(s))
